@@ -132,12 +132,15 @@ def leaves_equal(a, b):
     if len(a) != len(b):
         return False
     for (ta, va), (tb, vb) in zip(a, b):
-        ka = ta[0] if ta[0] != 'ENUM' else 'ENUM'
-        if ta[0] != tb[0]:
+        # without a schema ENUMERATED is recovered as an integer-like value carrying the ENUMERATED tag:
+        # the leaf *values* are what the property compares
+        ka = 'INT' if ta[0] == 'ENUM' else ta[0]
+        kb = 'INT' if tb[0] == 'ENUM' else tb[0]
+        if ka != kb:
             return False
         if ta[0] == 'STR' and ta[1] != tb[1]:
             return False
-        if not M.values_equal((ta[0],) if ta[0] != 'STR' else ta, va, vb):
+        if not M.values_equal((ka,) if ka != 'STR' else ta, va, vb):
             return False
     return True
 
@@ -200,7 +203,9 @@ def check_case(idx, sl, T, v, R):
                                 'byte-identical DER', pyasn1_site(e), feats, idx)
                     continue
                 if again != data:
-                    R.violation('reencode.bytes', rec, again[:60].hex(), data[:60].hex(), 'der.encoder', feats, idx)
+                    from mc.model import emu
+                    R.violation('reencode.bytes', rec, again[:60].hex(), data[:60].hex(), 'der.encoder',
+                                feats | emu.classify(T, v, 'der', again), idx)
                     continue
             for f in feats:
                 R.features[f] += 1
